@@ -368,7 +368,7 @@ def plan_align(ctx):
         for _ in range(ctx.scale(4, 12)):
             plan.append(dict(fn=fn, ck=rng.choice(['generic', 'minimal', 'planar']), rk='uniform', N=rng.choice([3, 4, 5]),
                              noise=rng.choice([0.3, 0.5]), nk=rng.choice(['iso', 'in-plane']), s=1.0, ws=True, shape=()))
-    n = ctx.scale(64, 1400)
+    n = ctx.scale(64, 800)
     for _ in range(n):
         fn = rng.choice(['svdtf', 'svdstf'])
         ck = rng.choice(CLOUD_KINDS)
@@ -580,7 +580,7 @@ def fdet(f9):
 def conversion_stage1(ctx, meta):
     """choose the cases and write stage 1 (Q, vm_compute): the exact matrix / translation the model
     hands to mat2SE3 / mat2Sim3"""
-    want = ctx.scale(12, 80)
+    want = ctx.scale(12, 40)
     chosen, seen = [], set()
     for i, m in enumerate(meta):
         if len(m['src']) > 12 or m.get('why'):
@@ -752,7 +752,7 @@ def run_icp(pp, torch, srcs, tgts, shape, steps, patience, init, share_target):
 def icp_block(ctx, pp, torch):
     np = np_()
     rng = ctx.rng
-    n = ctx.scale(10, 160)
+    n = ctx.scale(10, 100)
     icp_lits, tf_lits, meta = [], [], []
     plan = [('generic', ()), ('planar', ()), ('planar-tilted', ()), ('generic', (2,)), ('generic', ())]
     for k in range(n):
@@ -796,7 +796,7 @@ def icp_block(ctx, pp, torch):
             ctx.violation(icp_key(rec), why, rec)
         # ---- transitions of the loop body (first, middle, last pass of item 0 and of the last item)
         passes = len(klog)
-        pick = sorted(set([0, passes // 2, passes - 1])) if passes else []
+        pick = (sorted(set([0, passes // 2, passes - 1])) if N <= 24 else [0]) if passes else []
         for b in sorted(set([0, B - 1])):
             tgt_b = tgts[0] if share else tgts[b]
             for kpass in pick:
